@@ -779,14 +779,12 @@ func (av *Array) privateDetailedType() px.Type {
 			av.detailedType = av.privateReducedType()
 		} else {
 			types := make([]px.Type, len(av.elements))
-			av.detailedType = NewTupleType(types, nil)
-			verifhook.Point("array.detailed.window")
-			for idx := range types {
-				types[idx] = DefaultAnyType()
-			}
 			for idx, element := range av.elements {
 				types[idx] = px.DetailedValueType(element)
 			}
+			verifhook.Point("array.detailed.window")
+			// stored when it is complete: the value may be shared with other go routines
+			av.detailedType = NewTupleType(types, nil)
 		}
 	}
 	return av.detailedType
